@@ -39,7 +39,11 @@ RULE = ('interp (check): d in 1..3, axis lengths 1..6, uniform / non-uniform dya
         'interp cases use almost-uniform nodes (relative perturbation 1e-4, 1e-6, 1e-9) and/or grids scaled by 1e-3, '
         '1e-6, 1e-9, 1e6 with points at nodes, next to midpoints (exact ties excluded) and next to cell edges. shapes '
         '(hcheck): every factory called with np.zeros(shape) for all shapes of rank 0-2 with entries 0..4 (and some '
-        'rank 3) on 1-3 dimensional grids -> scalar / result shape / ValueError. Non-trivial = values not all equal; '
+        'rank 3) on 1-3 dimensional grids -> scalar / result shape / ValueError. styles (scheck): 16 callable '
+        'signature styles (positional, lambda, **kwargs, default argument, dual-use, in-place-only, objects with '
+        '__call__, point-by-point via vectorize) x 7 entry points (space.element with kwargs, point_collocation on '
+        'sparse mesh / dense mesh / point array, out-of-place and into garbage-prefilled out arrays) x return kind '
+        '(scalar, broadcastable, full). Interpolators are also called on dense mesh grids. Non-trivial = values not all equal; '
         'distinct by the full input tuple.')
 ASSUMPTIONS = [
     'exact arithmetic: coordinates/values are small integers or dyadic rationals so float operations are exact '
@@ -244,6 +248,9 @@ def run_interp(kind, schemes, cvs, dtype, vals_re, vals_im, conv, pts, mesh, use
         if d == 1 and len(pts) > 1 and use_out is None:
             x = x.ravel()                       # the (n,) form allowed in 1-d
         oshape = (len(pts),)
+    elif conv == 'dense':                       # full (non-sparse) mesh grid arrays, indexing='ij'
+        x = tuple(np.meshgrid(*[np.array(m, dtype=float) for m in mesh], indexing='ij', sparse=False))
+        oshape = tuple(len(m) for m in mesh)
     else:
         x = sparse_meshgrid(*mesh)
         oshape = tuple(len(m) for m in mesh)
@@ -290,7 +297,7 @@ def run_interp(kind, schemes, cvs, dtype, vals_re, vals_im, conv, pts, mesh, use
 def case_term(kind, schemes, cvs, dtype, vre, vim, conv, pts, mesh, out, outarg=None):
     kk = {'nearest': 'KNearest', 'linear': 'KLinear', 'per_axis': 'KPerAxis'}[kind]
     dt = {'float64': 'DFloat', 'float32': 'DFloat', 'complex128': 'DFloat', 'int64': 'DInt', 'str': 'DStr'}[dtype]
-    inp = ('IMesh %s' % C.qss(mesh)) if conv == 'mesh' else ('IPoints %s' % C.qss(pts))
+    inp = ('IMesh %s' % C.qss(mesh)) if conv in ('mesh', 'dense') else ('IPoints %s' % C.qss(pts))
     return ('{| k_kind := %s; k_ss := %s; k_cvs := %s; k_dt := %s; k_cplx := %s; k_vre := %s; k_vim := %s; '
             'k_inp := %s; k_outarg := %s; k_out := %s |}'
             % (kk, C.lst([SCH[s] for s in schemes]), C.qss(cvs), dt, C.b(dtype == 'complex128'),
@@ -332,9 +339,9 @@ def interp_cases(rng, tier):
         else:
             vre = [float(rng.randint(-9, 9)) for _ in range(size)]
         vim = [float(rng.randint(-9, 9)) for _ in range(size)] if dtype == 'complex128' else []
-        conv = rng.choice(['single', 'array', 'array', 'mesh', 'mesh'])
+        conv = rng.choice(['single', 'array', 'array', 'mesh', 'mesh', 'dense'])
         pts, mesh, branches = [], [], []
-        if conv == 'mesh':
+        if conv in ('mesh', 'dense'):
             for c in cvs:
                 npt = rng.choice([1, 2, 2, 3, 4])
                 xs = [coord(c) for _ in range(npt)]
@@ -353,7 +360,7 @@ def interp_cases(rng, tier):
             pts = [p + [0.0] for p in pts]                        # points of the wrong dimension
         outarg = None
         if use_out:
-            osh = [len(m) for m in mesh] if conv == 'mesh' else [len(pts)]
+            osh = [len(m) for m in mesh] if conv in ('mesh', 'dense') else [len(pts)]
             if use_out == 'badshape':
                 osh = osh[:-1] + [osh[-1] + 1]
             outarg = (osh, use_out != 'baddtype')
@@ -923,6 +930,139 @@ def resample_cases(rng, tier):
     return [cs, cs2]
 
 
+# ---- callable STYLES x call MODES (signature classification in sampling_function / _check_func_out_arg)
+STYLES = ['pos', 'lam', 'kwargs', 'default', 'lam-default', 'dual', 'inplace', 'inplace-default', 'dual-kwargs',
+          'dual-default', 'obj', 'obj-out', 'obj-kwargs', 'vec-pos', 'vec-default', 'vec-kwargs']
+STYLE_MODES = ['element', 'mesh', 'mesh-out', 'dense', 'dense-out', 'points', 'points-out']
+TAKES_C = {'kwargs', 'default', 'lam-default', 'inplace-default', 'dual-kwargs', 'dual-default', 'obj-kwargs',
+           'vec-default', 'vec-kwargs'}
+
+
+def style_src(style, ex, d):
+    """Source defining `f`, a callable of the given signature style computing ex(x) [* c]."""
+    v, sc = ex.src(True), ex.src(False)
+    hdr = 'import numpy as np, odl\n'
+    if style == 'pos':
+        return hdr + 'def f(x):\n    return %s\n' % v
+    if style == 'lam':
+        return hdr + 'f = lambda x: %s\n' % v
+    if style == 'kwargs':          # the style documented in DiscretizedSpace.element
+        return hdr + 'def f(x, **kwargs):\n    c = kwargs.pop("c", 1.0)\n    return (%s) * c\n' % v
+    if style == 'default':
+        return hdr + 'def f(x, c=1.0):\n    return (%s) * c\n' % v
+    if style == 'lam-default':
+        return hdr + 'f = lambda x, c=1.0: (%s) * c\n' % v
+    if style == 'dual':
+        return hdr + ('def f(x, out=None):\n    r = %s\n    if out is None:\n        return r\n    out[:] = r\n' % v)
+    if style == 'inplace':
+        return hdr + 'def f(x, out):\n    out[:] = %s\n' % v
+    if style == 'inplace-default':
+        return hdr + 'def f(x, out, c=1.0):\n    out[:] = (%s) * c\n' % v
+    if style == 'dual-kwargs':
+        return hdr + ('def f(x, out=None, **kwargs):\n    r = (%s) * kwargs.pop("c", 1.0)\n    if out is None:\n'
+                      '        return r\n    out[:] = r\n' % v)
+    if style == 'dual-default':
+        return hdr + ('def f(x, out=None, c=1.0):\n    r = (%s) * c\n    if out is None:\n        return r\n'
+                      '    out[:] = r\n' % v)
+    if style == 'obj':
+        return hdr + 'class F(object):\n    def __call__(self, x):\n        return %s\nf = F()\n' % v
+    if style == 'obj-out':
+        return hdr + ('class F(object):\n    def __call__(self, x, out=None):\n        r = %s\n        if out is None:\n'
+                      '            return r\n        out[:] = r\nf = F()\n' % v)
+    if style == 'obj-kwargs':
+        return hdr + ('class F(object):\n    def __call__(self, x, **kwargs):\n        return (%s) * kwargs.pop("c", 1.0)\n'
+                      'f = F()\n' % v)
+    if style == 'vec-pos':         # not vectorised: evaluated point by point through the decorator
+        return hdr + '@odl.util.vectorize\ndef f(x):\n    return float(%s)\n' % sc
+    if style == 'vec-default':
+        return hdr + '@odl.util.vectorize\ndef f(x, c=1.0):\n    return float(%s) * c\n' % sc
+    if style == 'vec-kwargs':
+        return hdr + '@odl.util.vectorize\ndef f(x, **kwargs):\n    return float(%s) * kwargs.get("c", 1.0)\n' % sc
+    raise ValueError(style)
+
+
+STYLE_SRC = LAYOUT_SRC + '''
+def sample_style(space, f, mode, kw, out_layout):
+    """Values of f on the grid of `space` through one entry point: space.element(f, **kw), or
+    point_collocation(sampling_function(f, ...), X[, out=garbage], **kw) with X the sparse mesh, the DENSE
+    mesh (np.meshgrid(indexing='ij', sparse=False)) or the point array (d, N)."""
+    import numpy as np
+    from odl.discr.discr_utils import sampling_function, point_collocation
+    if mode == 'element':
+        return space.element(f, **kw).asarray()
+    func = sampling_function(f, space.domain, out_dtype=space.dtype)
+    kind = mode.split('-')[0]
+    if kind == 'mesh':
+        x = space.meshgrid
+    elif kind == 'dense':
+        x = tuple(np.meshgrid(*space.grid.coord_vectors, indexing='ij', sparse=False))
+    else:
+        x = space.points().T
+    shp = (space.size,) if kind == 'points' else space.shape
+    if mode.endswith('-out'):
+        out = alloc_out(shp, space.dtype, out_layout)
+        r = point_collocation(func, x, out=out, **kw)
+        assert r is out
+        res = np.array(out)
+    else:
+        res = np.asarray(point_collocation(func, x, **kw))
+    assert res.shape == shp, (res.shape, shp)
+    return res.reshape(space.shape)
+'''
+exec(STYLE_SRC)
+
+
+def style_cases(rng, tier):
+    cs = C.CaseSet('styles', ['C15.Syntax', 'C15.Model', 'C15.Call', 'C15.Corr'], 'scheck', 'scase')
+    reps = 2 if tier == 'quick' else 9
+    for rep in range(reps):
+        for si, style in enumerate(STYLES):
+            for mi, mode in enumerate(STYLE_MODES):
+                d = rng.choice([1, 2, 2, 3])
+                dtype = rng.choice(['float64', 'float64', 'float32'])
+                sp, spsrc = make_space(rng, d, dtype)
+                ret = ['full', 'broadcast', 'scalar'][(rep + si + mi) % 3]
+                coords = None if ret == 'full' else (rng.sample(range(d), rng.randint(0, d - 1)) if ret == 'broadcast' else [])
+                ex = gen_ex(rng, d, rng.choice([1, 2]), coords)
+                if ret == 'full':
+                    for kk in range(d):
+                        if kk not in ex.coords():
+                            ex = Ex('add', ex, Ex('coord', kk))
+                if ret == 'scalar' and style.startswith('inplace'):
+                    pass                      # out[:] = constant is fine
+                c = rng.choice([2.0, -1.0, 0.5]) if (style in TAKES_C and rng.random() < 0.7) else 1.0
+                kw = {'c': c} if c != 1.0 else {}
+                src = style_src(style, ex, d)
+                out_layout = rng.choice(LAYOUTS) if mode.endswith('-out') else 'C'
+                env = {}
+                err = None
+                with warnings.catch_warnings():
+                    warnings.simplefilter('ignore')
+                    try:
+                        exec(src, env)
+                        arr = sample_style(sp, env['f'], mode, kw, out_layout)
+                    except Exception as e:
+                        arr, err = np.zeros(0), '%s: %s' % (type(e).__name__, str(e)[:200])
+                arr, err2 = _finite_or_empty(arr)
+                flat = np.asarray(arr).ravel()
+                exc = Ex('mul', ex, Ex('const', c))
+                term = ('{| s_cvs := %s; s_re := %s; s_im := FConst 0; s_cplx := false; s_out_re := %s; s_out_im := [] |}'
+                        % (C.qss([cv.tolist() for cv in sp.grid.coord_vectors]), exc.coq(),
+                           C.qs([float(v) for v in flat.tolist()])))
+                desc = {'family': 'styles', 'style': style, 'mode': mode, 'returns': ret, 'kwargs': kw,
+                        'out_layout': out_layout, 'space': spsrc, 'callable': src, 'error': err or err2,
+                        'scalar_expr': '(%s) * %r' % (ex.src(False, 'p'), c), 'd': d}
+                cs.add(term, desc, ('style', style, mode, ret, c, spsrc, src, out_layout))
+    return cs
+
+
+def _style_snippet(desc):
+    return ('import numpy as np, odl, warnings\nwarnings.simplefilter("ignore")\n' + STYLE_SRC + desc['space']
+            + desc['callable'] + 'got = sample_style(space, f, %r, %r, %r)\n' % (desc['mode'], desc['kwargs'], desc['out_layout'])
+            + 'expected = np.array([%s for p in space.points()]).reshape(space.shape).astype(space.dtype)\n'
+              'observed = got\nok = got.shape == space.shape and bool(np.all(got == expected))\n' % desc['scalar_expr'])
+
+
 def shape_cases(rng, tier):
     """Calling conventions by SHAPE: every factory called with np.zeros(shape) (all points at the first node)
     on a d-dimensional grid -> result shape, scalar, or ValueError.  Exhaustive over small shapes."""
@@ -955,7 +1095,7 @@ def shape_cases(rng, tier):
 
 def correspondence(rng, tier):
     return ([interp_cases(rng, tier), sampling_cases(rng, tier), tensor_sampling_cases(rng, tier),
-             history_cases(rng, tier), shape_cases(rng, tier)] + resample_cases(rng, tier))
+             history_cases(rng, tier), shape_cases(rng, tier), style_cases(rng, tier)] + resample_cases(rng, tier))
 
 
 # ------------------------------------------------------------------- probes
@@ -1058,11 +1198,16 @@ def probes(rng, tier):
                     shape = _probe_shape(rng, d)
                     cvs = [gen_cvec(rng, n) for n in shape]
                     schemes = [rng.choice(['nearest', 'linear']) for _ in range(d)]
-                    for conv in ('single', 'array', 'mesh'):
+                    for conv in ('single', 'array', 'mesh', 'dense'):
                         layout = 'C' if d == 1 else rng.choice(LAYOUTS)
                         snip = REF + LAYOUT_SRC + ('cvs = %r\nf = relayout(%s, %r)\nitp = make(%r, %r, f, cvs)\n' % (
                             cvs, _rand_values(rng, shape, dtype), layout, kind, schemes))
-                        if conv == 'mesh':
+                        if conv == 'dense':
+                            snip += ('got = np.asarray(itp(tuple(np.meshgrid(*[np.array(c) for c in cvs], indexing="ij", '
+                                     'sparse=False))))\n'
+                                     'observed = got.tolist(); expected = f.tolist()\n'
+                                     'ok = got.shape == f.shape and bool(np.all(got == f))\n')
+                        elif conv == 'mesh':
                             snip += ('got = np.asarray(itp(sparse_meshgrid(*[np.array(c) for c in cvs])))\n'
                                      'observed = got.tolist(); expected = f.tolist()\n'
                                      'ok = got.shape == f.shape and bool(np.all(got == f))\n')
@@ -1112,14 +1257,20 @@ def probes(rng, tier):
                          'o = alloc_out((len(pts),), f.dtype, "strided"); r = itp(np.array(pts).T, out=o)\n'
                          'mo = alloc_out(tuple(len(x) for x in mesh), f.dtype, OUT_LAYOUT)\n'
                          'mr = itp(sparse_meshgrid(*[np.array(x) for x in mesh]), out=mo)\n'
+                         'D = tuple(np.meshgrid(*[np.array(x, dtype=float) for x in mesh], indexing="ij", sparse=False))\n'
+                         'dn = np.asarray(itp(D)); do = alloc_out(tuple(len(x) for x in mesh), f.dtype, OUT_LAYOUT)\n'
+                         'dr = itp(D, out=do)\n'
+                         'dense_ok = (dn.shape == tuple(len(x) for x in mesh) and [complex(v) for v in dn.ravel()] == m\n'
+                         '            and dr is do and [complex(v) for v in do.ravel()] == m)\n'
                          'observed = a\n'
                          'ok = (close(a, expected, 1e-12) and a == b and r is o and [complex(v) for v in o] == a\n'
                          '      and close(m, [ref_interp(schemes, cvs, f, p) for p in mp], 1e-12)\n'
-                         '      and m == call(itp, "array", mp, %d) and mr is mo and [complex(v) for v in mo.ravel()] == m)\n'
+                         '      and m == call(itp, "array", mp, %d) and mr is mo and [complex(v) for v in mo.ravel()] == m\n'
+                         '      and dense_ok)\n'
                          % (d, d, d))
                 _probe(out, 'textbook-%s-d%d' % (kind if kind != 'per_axis' else 'peraxis', d),
                        '%s %s (%s, %d-d, %s memory layout): closest node (right on ties) / multilinear blend / one-cell '
-                       'decay outside, identical for single points, point arrays, mesh grids and out=%s'
+                       'decay outside, identical (values and shape) for single points, point arrays, sparse and dense mesh grids, with and without out=%s'
                        % (kind, eff, dtype, d, layout,
                           '; almost-uniform / rescaled nodes (eps, scale) = %r' % (near,) if near else ''), snip)
 
@@ -1317,6 +1468,37 @@ def probes(rng, tier):
                'interpolators on a %d-d grid accept exactly the documented input shapes and return a scalar / one value '
                'per point' % d, snip)
 
+    # ---- 6f. the result of sampling never shares memory with the mesh / grid / point array, and modifying a
+    #          sampled element in place does not change later samplings on the same space
+    for d in (1, 2, 3):
+        for body in ('x[0]', 'x' if d == 1 else 'x[%d]' % (d - 1), 'x[0] + 0.0'):
+            snip = ('import numpy as np, odl, warnings\nwarnings.simplefilter("ignore")\n'
+                    'from odl.discr.discr_utils import sampling_function, point_collocation\n'
+                    'space = odl.uniform_discr(%r, %r, %r)\nf = lambda x: %s\n'
+                    'grid0 = [c.copy() for c in space.grid.coord_vectors]\n'
+                    'e = space.element(f); before = e.asarray().copy()\n'
+                    'func = sampling_function(f, space.domain, out_dtype=float)\n'
+                    'pts = space.points().T; r_mesh = point_collocation(func, space.meshgrid); r_pts = func(pts)\n'
+                    'shared = [np.shares_memory(e.asarray(), a) for a in list(space.grid.coord_vectors) + list(space.meshgrid)]\n'
+                    'shared += [np.shares_memory(r_mesh, a) for a in space.meshgrid] + [np.shares_memory(r_pts, pts)]\n'
+                    'e *= 0; r_mesh *= 0; r_pts *= 0          # in-place use of the results\n'
+                    'again = space.element(f).asarray()\n'
+                    'observed = (shared, again.tolist()); expected = ([False] * len(shared), before.tolist())\n'
+                    'ok = (not any(shared) and bool(np.all(again == before))\n'
+                    '      and all(bool(np.all(a == b)) for a, b in zip(grid0, space.grid.coord_vectors)))\n'
+                    % ([0.0] * d, [1.0] * d, [4, 3, 2][:d], body))
+            _probe(out, 'sampling-result-aliases-grid' if body != 'x[0] + 0.0' else 'sampling-result-owns-memory-d%d' % d,
+                   'sampling `lambda x: %s` (%d-d): the result shares no memory with mesh / grid / points, and changing '
+                   'it in place leaves the grid and later samplings unchanged' % (body, d), snip)
+    # functools.partial objects as callables
+    snip = ('import numpy as np, odl, functools\n'
+            'def g(x, c):\n    return (x[0] + 10 * x[1]) * c\n'
+            'space = odl.uniform_discr([0, 0], [1, 1], (2, 2))\n'
+            'observed = space.element(functools.partial(g, c=2.0)).asarray()\n'
+            'expected = np.array([g(p, 2.0) for p in space.points()]).reshape(space.shape)\n'
+            'ok = bool(np.all(observed == expected))\n')
+    _probe(out, 'sampling-functools-partial-typeerror', 'space.element(functools.partial(g, c=2.0)) samples the callable', snip)
+
     # ---- 7. vector-valued callables through sampling_function (shaped out_dtype)
     for form, body in (('tuple-mixed', '(x[0] + 0.0 * x[1], 2.0, x[0] * x[1])'),
                        ('tuple-equal-partial', '(x[1], 2.0 * x[1], x[1] + 1.0)')):
@@ -1354,10 +1536,12 @@ def _interp_snippet(desc):
         f = 'np.array(%r, dtype=%r).reshape(%r)' % (desc['values'], desc['dtype'], tuple(len(c) for c in desc['cvs']))
     snip = (REF + LAYOUT_SRC + 'cvs = %r\nf = relayout(%s, %r)\nschemes = %r\nitp = make(%r, schemes, f, cvs)\n'
             % (desc['cvs'], f, desc.get('layout', 'C'), eff, kind))
-    if desc['conv'] == 'mesh':
+    if desc['conv'] in ('mesh', 'dense'):
         snip += ('mesh = %r\npts = list(itertools.product(*mesh))\n'
-                 'observed = [complex(v) for v in np.asarray(itp(sparse_meshgrid(*[np.array(x) for x in mesh]))).ravel()]\n'
-                 % (desc['mesh'],))
+                 'X = %s\n'
+                 'observed = [complex(v) for v in np.asarray(itp(X)).ravel()]\n'
+                 % (desc['mesh'], 'sparse_meshgrid(*[np.array(x) for x in mesh])' if desc['conv'] == 'mesh' else
+                    'tuple(np.meshgrid(*[np.array(x, dtype=float) for x in mesh], indexing="ij", sparse=False))'))
     else:
         snip += 'pts = %r\nobserved = call(itp, %r, pts, %d)\n' % (desc['points'], desc['conv'], d)
     snip += 'expected = [ref_interp(schemes, cvs, f, p) for p in pts]\nok = close(observed, expected, 1e-12)\n'
@@ -1399,6 +1583,9 @@ def search(rng, broken):
         if desc.get('family') == 'sampling':
             snip = _sampling_snippet(desc)
             key = 'sampling-%s-%s-%s' % (desc['flavour'], desc['dtype'], desc['mode'])
+        elif desc.get('family') == 'styles':
+            snip = _style_snippet(desc)
+            key = 'sampling-style-%s-%s' % (desc['style'], desc['mode'])
         elif desc.get('family') == 'history':
             snip = desc.get('replay')
             if snip is None:          # stored with the first step of the same history
